@@ -340,6 +340,9 @@ class _ExprCanon(ast.NodeTransformer):
         if isinstance(f, ast.Name) and f.id == "list" and len(node.args) == 1 and not node.keywords and isinstance(node.args[0], ast.GeneratorExp):
             g = node.args[0]
             return _loc(ast.ListComp(elt=g.elt, generators=g.generators), node)
+        if isinstance(f, ast.Name) and f.id == "set" and len(node.args) == 1 and not node.keywords and isinstance(node.args[0], ast.GeneratorExp):
+            g = node.args[0]
+            return _loc(ast.SetComp(elt=g.elt, generators=g.generators), node)
         return None
 
     def visit_Call(self, node: ast.Call):
@@ -528,6 +531,14 @@ class BlockCanon:
                     st.test = simplify_test(_and(st.test, inner.test))  # type: ignore[attr-defined]
                     st.body = inner.body  # type: ignore[attr-defined]
                     continue
+            # ---- C10 EAFP -> LBYL on a plain mapping lookup
+            if enabled("C10"):
+                r10 = self._lbyl(st, stmts[i + 1] if not last else None, stmts[i + 2:])
+                if r10 is not None:
+                    self.changed = True
+                    new_stmts, consumed = r10
+                    stmts[i : i + consumed] = new_stmts
+                    continue
             # ---- C7 scan idioms
             if enabled("C7"):
                 r = self._scan_any(st) or self._scan_next(st, stmts[i + 1] if not last else None, stmts[i + 2 :]) or self._scan_next_return(st)
@@ -703,6 +714,12 @@ class BlockCanon:
             st.test = simplify_test(st.test)
             st.body = self.block(st.body, "loop")
             st.orelse = self.block(st.orelse, None) if st.orelse else []
+            # while c: if d: break; REST   ->   while c and not d: REST
+            while enabled("C2") and not st.orelse and len(st.body) > 1 and isinstance(st.body[0], ast.If) and not st.body[0].orelse \
+                    and _only(st.body[0].body, lambda s_: isinstance(s_, ast.Break)) and is_pure(st.body[0].test) and is_pure(st.test):
+                st.test = simplify_test(_and(st.test, simplify_test(negate(st.body[0].test))))
+                st.body = st.body[1:]
+                self.changed = True
             return st
         if isinstance(st, (ast.With, ast.AsyncWith)):
             st.body = self.block(st.body, tail)
@@ -811,6 +828,41 @@ class BlockCanon:
                 body = [_loc(ast.If(test=simplify_test(cond), body=body, orelse=[]), at)]  # type: ignore[list-item]
             body = [_loc(ast.For(target=gen.target, iter=gen.iter, body=body, orelse=[]), at)]  # type: ignore[list-item]
         return body[0]
+
+    # -- C10: try: v = D[K] / except KeyError: A / else: B   ->   if K in D: v = D[K]; B  else: A
+    #         v = D.get(K, SENTINEL); if v is SENTINEL: A else: B   ->   the same
+    def _lbyl(self, st: ast.stmt, nxt: Optional[ast.stmt], rest: Sequence[ast.stmt]):
+        """Side condition (recorded in DESIGN): D is a plain mapping - `K in D` holds exactly when `D[K]` does not raise
+        KeyError; D and K are pure expressions, so evaluating them twice is not observable."""
+        if isinstance(st, ast.Try) and not st.finalbody and len(st.handlers) == 1 and len(st.body) == 1:
+            h = st.handlers[0]
+            s0 = st.body[0]
+            if h.type is not None and isinstance(h.type, ast.Name) and h.type.id == "KeyError" and (h.name is None or not any(
+                    isinstance(x, ast.Name) and x.id == h.name for b_ in h.body for x in ast.walk(b_))):
+                val = s0.value if isinstance(s0, (ast.Assign, ast.AnnAssign)) else None
+                if isinstance(val, ast.Subscript) and not isinstance(val.slice, ast.Slice) and is_pure(val.value) and is_pure(val.slice) \
+                        and not any(isinstance(x, ast.Raise) and x.exc is None for b_ in h.body for x in ast.walk(b_)) \
+                        and (isinstance(s0, ast.AnnAssign) and isinstance(s0.target, ast.Name) or isinstance(s0, ast.Assign) and len(s0.targets) == 1 and isinstance(s0.targets[0], ast.Name)):
+                    test = _loc(ast.Compare(left=copy.deepcopy(val.slice), ops=[ast.In()], comparators=[copy.deepcopy(val.value)]), st)
+                    return [_loc(ast.If(test=test, body=[s0] + list(st.orelse), orelse=list(h.body)), st)], 1
+        if isinstance(st, ast.Assign) and len(st.targets) == 1 and isinstance(st.targets[0], ast.Name) and isinstance(nxt, ast.If):
+            v = st.targets[0].id
+            c = st.value
+            if isinstance(c, ast.Call) and isinstance(c.func, ast.Attribute) and c.func.attr == "get" and len(c.args) == 2 and not c.keywords \
+                    and isinstance(c.args[1], ast.Name) and c.args[1].id.upper() == c.args[1].id and is_pure(c.func.value) and is_pure(c.args[0]):
+                sent = c.args[1].id
+                t = nxt.test
+                if isinstance(t, ast.Compare) and len(t.ops) == 1 and isinstance(t.ops[0], (ast.Is, ast.IsNot)) and isinstance(t.left, ast.Name) and t.left.id == v \
+                        and isinstance(t.comparators[0], ast.Name) and t.comparators[0].id == sent:
+                    missing, present = (nxt.body, nxt.orelse) if isinstance(t.ops[0], ast.Is) else (nxt.orelse, nxt.body)
+                    reads_missing = any(isinstance(x, ast.Name) and x.id == v and isinstance(x.ctx, ast.Load) for b_ in missing for x in ast.walk(b_))
+                    assigns_missing = any(isinstance(b_, ast.Assign) and len(b_.targets) == 1 and isinstance(b_.targets[0], ast.Name) and b_.targets[0].id == v for b_ in missing)
+                    read_after = any(isinstance(x, ast.Name) and x.id == v and isinstance(x.ctx, ast.Load) for r_ in rest for x in ast.walk(r_))
+                    if not reads_missing and (assigns_missing or not read_after or terminates(missing)):
+                        look = _loc(ast.Assign(targets=[st.targets[0]], value=_loc(ast.Subscript(value=c.func.value, slice=c.args[0], ctx=ast.Load()), c)), st)
+                        test = _loc(ast.Compare(left=copy.deepcopy(c.args[0]), ops=[ast.In()], comparators=[copy.deepcopy(c.func.value)]), st)
+                        return [_loc(ast.If(test=test, body=[look] + list(present), orelse=list(missing)), nxt)], 2
+        return None
 
     # -- C7: if any(c for x in it): <terminating>   ->  for x in it: if c: <terminating>
     def _scan_any(self, st: ast.stmt):
